@@ -4,12 +4,13 @@
 From ZV Require Export Common.Bytes Wal.Consts Wal.Crc Wal.Proto Wal.Model.
 Open Scope N_scope.
 
-(* ReadAll's statement  ents = append(ents[:e.Index-start-1], e)  with its range check *)
+(* ReadAll's statement  ents = append(ents[:e.Index-start-1], e)  with its range check; an entry at or
+   before the snapshot index empties what was collected (that write truncated the log behind it) *)
 Definition place (start : N) (ents : list entry) (e : entry) : option (list entry) :=
   if start <? e_index e then
     let up := e_index e - start - 1 in
     if nlen ents <? up then None else Some (firstn (N.to_nat up) ents ++ [e])
-  else Some ents.
+  else Some [].
 
 Fixpoint place_all (start : N) (ents : list entry) (es : list entry) : option (list entry) :=
   match es with
